@@ -3064,6 +3064,16 @@ impl KotoVm {
         // Captures and temp tuple values are placed in the registers following the arguments
         apply_captures(&mut generator_vm.registers, f);
 
+        // Unpacking packed arguments can remove registers from the stack (see
+        // `unpack_packed_arguments`), and generator calls don't push a frame in this VM,
+        // so ensure that the calling frame still has the required number of registers.
+        if !self.call_stack.is_empty() {
+            let min_frame_registers = self.register_index(self.frame().required_registers);
+            if self.registers.len() < min_frame_registers {
+                self.registers.resize(min_frame_registers, KValue::Null);
+            }
+        }
+
         // Move the generator vm into an iterator and then place it in the result register
         if let Some(result_register) = call_info.result_register {
             self.set_register(result_register, KIterator::with_vm(generator_vm).into());
